@@ -28,6 +28,12 @@ pub enum Corruption {
     Truncated,
     /// the right content, but the record says another key
     OtherKey,
+    /// other content wrapped as a paid upload: kind ChunkWithPayment, (empty proof, other chunk)
+    OtherChunkPaidKind,
+    /// the right content wrapped as a paid upload (the client may take or refuse it)
+    RightChunkPaidKind,
+    /// the other chunk's encoding behind the tag of record kind t (0..8)
+    OtherChunkUnderTag(u8),
 }
 
 #[derive(Clone, Debug, Serialize, Deserialize)]
@@ -41,7 +47,8 @@ pub struct ChunkCase {
 }
 
 fn corruption() -> impl Strategy<Value = Corruption> {
-    prop_oneof![4 => Just(Corruption::OtherChunk), 1 => Just(Corruption::WrongKind), 1 => Just(Corruption::Garbage), 1 => Just(Corruption::Truncated), 1 => Just(Corruption::OtherKey)]
+    prop_oneof![4 => Just(Corruption::OtherChunk), 1 => Just(Corruption::WrongKind), 1 => Just(Corruption::Garbage), 1 => Just(Corruption::Truncated), 1 => Just(Corruption::OtherKey),
+        2 => Just(Corruption::OtherChunkPaidKind), 1 => Just(Corruption::RightChunkPaidKind), 2 => (0u8..8).prop_map(Corruption::OtherChunkUnderTag)]
 }
 
 fn chunk_strategy() -> BoxedStrategy<ChunkCase> {
@@ -66,7 +73,22 @@ fn check_chunks(case: &ChunkCase, ctx: &mut Ctx) {
     for c in chunks.iter().chain(std::iter::once(&dm)) {
         map.insert(key_of(c.name()).to_vec(), c.clone());
     }
-    let decoy = fix::chunk(4242 + case.len as u64, 64);
+    // what a substituting holder presents instead: for a data read another, complete, data map (whose
+    // chunks it serves as well); for a chunk read another valid chunk
+    let decoy = if case.public_data {
+        match autonomi::self_encryption::encrypt(Bytes::from(content_of(&Content::Mixed(case.len ^ 0x5a5a), case.len as usize + 7))) {
+            Ok((dm2, chunks2)) => {
+                for c in &chunks2 {
+                    map.entry(key_of(c.name()).to_vec()).or_insert_with(|| c.clone());
+                }
+                dm2
+            }
+            Err(_) => fix::chunk(4242 + case.len as u64, 64),
+        }
+    } else {
+        fix::chunk(4242 + case.len as u64, 64)
+    };
+    let paid = |c: &Chunk| ant_protocol::storage::try_serialize_record(&(ant_evm::ProofOfPayment { peer_quotes: vec![] }, c.clone()), ant_protocol::storage::RecordKind::ChunkWithPayment).map(|b| b.to_vec()).unwrap_or_default();
     let target = if case.public_data { *dm.name() } else { *chunks[0].name() };
     let mut delivered_bad = 0usize;
     let res: Result<Vec<u8>, String> = with_sim(|sim| {
@@ -104,6 +126,18 @@ fn check_chunks(case: &ChunkCase, ctx: &mut Ctx) {
                             fix::record(key.clone(), v)
                         }
                         Corruption::OtherKey => fix::record(key_of(decoy.name()), h.map(|r| r.value).unwrap_or_default()),
+                        Corruption::OtherChunkPaidKind => fix::record(key.clone(), paid(&decoy)),
+                        Corruption::RightChunkPaidKind => match map.get(&key.to_vec()) {
+                            Some(c) => fix::record(key.clone(), paid(c)),
+                            None => fix::record(key.clone(), paid(&decoy)),
+                        },
+                        Corruption::OtherChunkUnderTag(t) => {
+                            let mut v = if t % 8 == 1 { paid(&decoy) } else { chunk_record(&decoy).value };
+                            if v.len() > 1 {
+                                v[1] = t % 8;
+                            }
+                            fix::record(key.clone(), v)
+                        }
                     })
                 }
             };
